@@ -2,6 +2,7 @@ SPECIFICATION MCSpec
 CONSTANTS Dropped = {"deposit_amounts[]"}
  WriteOrder = "node"
  MaxN = 3
+ FortVers = {11}
  Thresholds = "default"
 INVARIANTS TamperEvident
 CHECK_DEADLOCK FALSE
